@@ -479,6 +479,8 @@ fn weights(profile: &str) -> Vec<u32> {
         "c16" => vec![12, 12, 8, 6, 4, 3, 4, 3, 1, 0, 0, 2],
         // the real participant registry: handles registering and leaving while others advance
         "c18e" => vec![10, 9, 1, 0, 3, 2, 8, 12, 1, 10, 10, 0],
+        // small programs for Miri
+        "tiny" => vec![8, 8, 2, 1, 10, 4, 6, 5, 0, 1, 1, 0],
         _ => vec![8, 8, 2, 2, 10, 4, 6, 5, 3, 1, 1, 1],
     }
 }
@@ -515,7 +517,7 @@ fn run_one(cfg: &EbrCfg, eseed: u64, idx: u64, st: &mut EbrStats) {
     // a few epochs of pre-roll on the private collector
     {
         let h = collector.register();
-        for _ in 0..rng.below(6) {
+        for _ in 0..rng.below(if cfg!(miri) { 2 } else { 6 }) {
             let g = h.pin();
             V::collect(&g);
         }
@@ -566,7 +568,7 @@ fn run_one(cfg: &EbrCfg, eseed: u64, idx: u64, st: &mut EbrStats) {
     let mut bodies: Vec<Box<dyn FnOnce() + Send>> = Vec::new();
     for t in 0..nthreads {
         let c = collector.clone();
-        let nops = rng.range(4, 30);
+        let nops = if cfg.profile == "tiny" { rng.range(3, 10) } else { rng.range(4, 30) };
         let tseed = mix(eseed, 77 + t as u64);
         let w = weights(&cfg.profile);
         let handle_first = rng.chance(1, 4);
